@@ -640,9 +640,18 @@ def shaky_observables(world, obj, base, probes):
                 c = np.array(mv.centroid, dtype=float)
                 mv.centroid = c + history.extent(obj) * np.array([1.0, -0.7, 0.4])[:len(c)]
                 mv.centroid = c
+                # ... and a third copy moved to the origin and back, which is exactly what the
+                # library's own movers (to_hoomd) do
+                b2 = copy.deepcopy(obj)
+                mv2 = history.target_of(b2) or b2
+                c2 = np.array(mv2.centroid, dtype=float)
+                mv2.centroid = np.zeros_like(c2)
+                mv2.centroid = c2
             sa = observe.snapshot(a, probes)
             sb = observe.snapshot(b, probes)
+            sb2 = observe.snapshot(b2, probes)
         out |= {k for k, _w in observe.diff_unchanged(sa, sb, nbase=probes["n_base"])}
+        out |= {k for k, _w in observe.diff_unchanged(sa, sb2, nbase=probes["n_base"])}
     except Exception as e:  # noqa: BLE001
         if type(e).__name__ == "HarnessTimeout":
             raise
